@@ -218,3 +218,67 @@ class CSim:
                         if b.get('kind') == 'DeclRefExpr' and b.get('ref') in ('args', 'arg') and i.get('kind') == 'IntegerLiteral':
                             out[int(i['value'])] = v['name']
         return out
+
+IMPLS = ('py', 'cm', 'cp', 'cc')   # Simulator, CMIOSimulator, C plain, C -DCONTENTION
+IMPL_NAMES = {'py': 'skoolkit/simulator.py Simulator', 'cm': 'skoolkit/cmiosimulator.py CMIOSimulator',
+              'cp': 'c/csimulator.c (plain build)', 'cc': 'c/csimulator.c (-DCONTENTION build)'}
+
+class SimModel:
+    """All four implementations, with cached raw paths per distinct instantiation."""
+    def __init__(self, repo, need_c=True):
+        self.repo = repo
+        self.py = PySim(repo)
+        self.c = CSim(repo.root) if need_c else None
+        self._raw = {}
+        self._canon = {}
+
+    def slots(self):
+        for tab in TABLES:
+            for s in self.py.slots[tab]:
+                yield s
+
+    def is_prefix(self, slot):
+        return slot.handler in ('prefix', 'prefix2')
+
+    def inst_key(self, impl, slot):
+        if impl in ('py', 'cm'):
+            return (impl, slot.handler, tuple(repr(self.py.argvalue(a)) for a in slot.argnodes))
+        row = self.c.tables['plain' if impl == 'cp' else 'cont'][slot.table][slot.index]
+        return (impl, row['func'], row['lookup'], tuple(row['args']))
+
+    def raw_paths(self, impl, slot):
+        k = self.inst_key(impl, slot)
+        if k not in self._raw:
+            try:
+                if impl == 'py':
+                    self._raw[k] = self.py.paths('Simulator', slot)[0]
+                elif impl == 'cm':
+                    self._raw[k] = self.py.paths('CMIOSimulator', slot)[0]
+                else:
+                    cfg = 'plain' if impl == 'cp' else 'cont'
+                    row = self.c.tables[cfg][slot.table][slot.index]
+                    if row['func'] is None:
+                        raise Unsupported('C slot has no handler function')
+                    self._raw[k] = self.c.paths(cfg, row['func'], row['args'], row['lookup'])
+            except Unsupported as e:
+                self._raw[k] = e
+        r = self._raw[k]
+        if isinstance(r, Unsupported):
+            raise r
+        return r
+
+    def canon(self, impl, slot, **kw):
+        k = (self.inst_key(impl, slot), tuple(sorted(kw.items())))
+        if k not in self._canon:
+            self._canon[k] = effects.canon(self.raw_paths(impl, slot), **kw)
+        return self._canon[k]
+
+    def where(self, impl, slot):
+        if impl in ('py', 'cm'):
+            fac = self.py.factories['Simulator' if impl == 'py' else 'CMIOSimulator'].get(slot.handler)
+            mod = self.py.mod if impl == 'py' else self.py.cmod
+            return '%s:%d' % (mod.relpath, fac.lineno if fac else 0)
+        cfg = 'plain' if impl == 'cp' else 'cont'
+        row = self.c.tables[cfg][slot.table][slot.index]
+        f = self.c.units[cfg].funcs.get(row['func'])
+        return 'c/csimulator.c:%d' % (f['line'] if f else row['line'])
